@@ -89,7 +89,38 @@ def _one(args):
         shutil.rmtree(tmp, ignore_errors=True)
 
 
+def _neutral(args):
+    prop, src_root, kind, base_keys = args
+    from .neutral import transform
+    tmp = tempfile.mkdtemp(prefix="dvsweep.")
+    try:
+        dst = os.path.join(tmp, "src")
+        shutil.copytree(src_root, dst, ignore=shutil.ignore_patterns("__pycache__", "*.egg-info"))
+        try:
+            transform(os.path.join(dst, "diameter"), kind)
+        except Exception as e:
+            return f"neutral:{kind}", "skipped", f"rewrite failed: {type(e).__name__}"
+        res = _run_rules(prop, dst)
+        new = [k for k in res["keys"] if k not in base_keys]
+        ok = not new and not res["error"]
+        return f"neutral:{kind}", "silent" if ok else "FALSE-ALARM", (new[0] if new else res["error"] or "")
+    finally:
+        shutil.rmtree(tmp, ignore_errors=True)
+
+
 def sweep(prop: str, src_root: str, base_keys: list[str], jobs: int = 8):
+    from .neutral import KINDS
+    vs = _variants(prop)
+    results = []
+    with cf.ProcessPoolExecutor(max_workers=jobs) as ex:
+        futs = [ex.submit(_one, (prop, src_root, v, base_keys)) for v in vs]
+        futs += [ex.submit(_neutral, (prop, src_root, k, base_keys)) for k in KINDS]
+        for f in futs:
+            results.append(f.result())
+    return results
+
+
+def _sweep_old(prop: str, src_root: str, base_keys: list[str], jobs: int = 8):
     vs = _variants(prop)
     results = []
     if not vs:
